@@ -49,13 +49,14 @@ type Line struct {
 	ID     int           `json:"id"`
 	Source int           `json:"src"`
 	Stream string        `json:"stream"`
-	Dirs   []string      `json:"dirs,omitempty"`   // directive for action i ("", pass, discard, break)
-	Msg    string        `json:"msg,omitempty"`    // join field: "S.." start, "C.." continuation, other = plain
-	Kids   int           `json:"kids,omitempty"`   // >0: array field for the split action
-	Drop   bool          `json:"drop,omitempty"`   // matched by the real discard action
-	NoSel  bool          `json:"nosel,omitempty"`  // the event does not satisfy the join action's selector (match_fields / do_if)
-	Reject bool          `json:"reject,omitempty"` // the input's PassEvent refuses it (as the file input does for offsets already committed)
-	Bad    int           `json:"bad,omitempty"`    // 1 undecodable, 2 empty line
+	Dirs   []string      `json:"dirs,omitempty"`    // directive for action i ("", pass, discard, break)
+	Msg    string        `json:"msg,omitempty"`     // join field: "S.." start, "C.." continuation, other = plain
+	Kids   int           `json:"kids,omitempty"`    // >0: array field for the split action
+	Drop   bool          `json:"drop,omitempty"`    // matched by the real discard action
+	NoSel  bool          `json:"nosel,omitempty"`   // the event does not satisfy the join action's selector (match_fields / do_if)
+	Reject bool          `json:"reject,omitempty"`  // the input's PassEvent refuses it (as the file input does for offsets already committed)
+	MsgNum bool          `json:"msg_num,omitempty"` // the join field is present but a number
+	Bad    int           `json:"bad,omitempty"`     // 1 undecodable, 2 empty line
 	Pause  time.Duration `json:"pause,omitempty"`
 }
 
@@ -186,6 +187,8 @@ func (h *H) Gen(rng *rand.Rand, tier, prop string) core.Cfg {
 				l.Msg = "C" + strconv.Itoa(id)
 			case core.Chance(rng, 0.5):
 				l.Msg = "P" + strconv.Itoa(id)
+			case core.Chance(rng, 0.25):
+				l.MsgNum = true
 			}
 		}
 		if hasSplit && core.Chance(rng, 0.15) {
@@ -916,7 +919,9 @@ func lineJSON(l Line) []byte {
 			fmt.Fprintf(&sb, `,"a%d":%q`, i, d)
 		}
 	}
-	if l.Msg != "" {
+	if l.MsgNum {
+		sb.WriteString(`,"msg":12345`)
+	} else if l.Msg != "" {
 		fmt.Fprintf(&sb, `,"msg":%q`, l.Msg)
 	}
 	if l.Drop {
